@@ -78,6 +78,20 @@ pub fn c04(eng: &mut Engine, rng: &mut Rng, thorough: bool, out: &mut Out) -> Ca
         }
     }
     eng.incremental = false;
+    // every boundary shape, in both formats, every run (the random stream above only meets them now and then)
+    for (k, plan) in extreme_plans(rng, &eng.cast).into_iter().enumerate() {
+        let o = honest_vopts(&eng.cast, &plan);
+        if let Ok(b) = eng.build_legacy(&plan) {
+            emit_legacy(eng, out, &mut cases, "c04.legacy", &format!("honest:legacy:boundary-shape-{k}"), "", Some(true), &b.pres, &b.ghosts, &b.agg, &b.req, &o, "verdict");
+        } else {
+            out.oracle_fail("honest legacy presentation could not be built", &json!({"fam":"c04.legacy","cls":format!("boundary-shape-{k}")}), &Value::Null);
+        }
+        if let Ok(b) = eng.build_w3c(&plan) {
+            emit_w3c(eng, out, &mut cases, "c04.w3c", &format!("honest:w3c:boundary-shape-{k}"), "", Some(true), &b.pres, &b.ghosts, &b.agg, true, &b.req, &o, "verdict");
+        } else {
+            out.oracle_fail("honest W3C presentation could not be built", &json!({"fam":"c04.w3c","cls":format!("boundary-shape-{k}")}), &Value::Null);
+        }
+    }
     cases
 }
 
@@ -682,6 +696,33 @@ pub fn c03(eng: &mut Engine, rng: &mut Rng, thorough: bool, out: &mut Out) -> Ca
                 }
             }
         }
+        // the envelope of the presentation itself: type and contexts (`W3CPresentation::validate`)
+        if let Ok(b) = eng.build_w3c(&basic_plan(rng, eng, "a_alice", true)) {
+            let pj = serde_json::to_value(&b.pres).unwrap();
+            let mut edits: Vec<(&str, Value)> = vec![];
+            let mut j = pj.clone();
+            j["type"] = json!(["SomethingElse"]);
+            edits.push(("presentation-type-missing", j));
+            let mut j = pj.clone();
+            j["type"] = json!([]);
+            edits.push(("presentation-type-empty", j));
+            if let Some(ctx) = pj["@context"].as_array() {
+                for (i, c) in ctx.iter().enumerate() {
+                    if i == 0 {
+                        continue; // the first entry selects the data-model version: another class
+                    }
+                    let mut j = pj.clone();
+                    j["@context"].as_array_mut().unwrap().remove(i);
+                    edits.push((if c.is_object() { "presentation-context-vocabulary-missing" } else { "presentation-context-entry-missing" }, j));
+                }
+            }
+            for (cls, j) in edits {
+                match serde_json::from_value::<anoncreds::data_types::w3c::presentation::W3CPresentation>(j) {
+                    Ok(p) => emit_w3c(eng, out, &mut cases, "c03.w3c", &format!("c03:{cls}"), "", Some(false), &p, &b.ghosts, &b.agg, false, &b.req, &o, "safety"),
+                    Err(_) => out.count(&format!("c03:{cls}:undeserialisable")),
+                }
+            }
+        }
         // the same alterations on presentations of random honest shapes (credentials that only hold unrevealed attributes, unused
         // credentials, several credentials, groups, predicates ...): every credential / every revealed entry in turn
         let mut shapes: Vec<(Plan, Plan)> = extreme_plans(rng, &eng.cast).into_iter().map(|p| (p.clone(), p)).collect();
@@ -1054,6 +1095,32 @@ pub fn c05(eng: &mut Engine, rng: &mut Rng, thorough: bool, out: &mut Out) -> Ca
             emit_w3c(eng, out, &mut cases, "c05.w3c", "c05:nonce-other", "", Some(false), &bw.pres, &bw.ghosts, &bw.agg, true, &req_from(&r).unwrap(), &o, "safety");
             let o2 = VOpts { swap_def: Some((ia, ib)), ..Default::default() };
             emit_w3c(eng, out, &mut cases, "c05.w3c", "c05:def-swapped-same-schema", "", Some(false), &bw.pres, &bw.ghosts, &bw.agg, true, &bw.req, &o2, "safety");
+            // the presentation's own proof envelope: purpose, kind of value, challenge
+            {
+                let pj = serde_json::to_value(&bw.pres).unwrap();
+                let mut edits: Vec<(&str, Value, Option<bool>)> = vec![];
+                let mut j = pj.clone();
+                j["proof"]["proofPurpose"] = json!("assertionMethod");
+                edits.push(("presentation-proof-purpose-assertion", j, Some(false)));
+                let mut j = pj.clone();
+                j["proof"]["proofValue"] = pj["verifiableCredential"][0]["proof"]["proofValue"].clone();
+                edits.push(("presentation-proof-is-a-credential-proof", j, Some(false)));
+                let mut j = pj.clone();
+                j["proof"]["challenge"] = json!("424242");
+                edits.push(("presentation-proof-challenge-changed", j, None));
+                let mut j = pj.clone();
+                j["verifiableCredential"][0]["proof"]["proofPurpose"] = json!("authentication");
+                edits.push(("credential-proof-purpose-authentication", j, Some(false)));
+                let mut j = pj.clone();
+                j["verifiableCredential"][0]["proof"]["proofValue"] = pj["proof"]["proofValue"].clone();
+                edits.push(("credential-proof-is-a-presentation-proof", j, Some(false)));
+                for (cls, j, exp) in edits {
+                    match serde_json::from_value::<anoncreds::data_types::w3c::presentation::W3CPresentation>(j) {
+                        Ok(p) => emit_w3c(eng, out, &mut cases, "c05.w3c", &format!("c05:{cls}"), "", exp, &p, &bw.ghosts, &bw.agg, true, &bw.req, &o, "safety"),
+                        Err(_) => out.count(&format!("c05:{cls}:undeserialisable")),
+                    }
+                }
+            }
             // perturb a number inside the first credential's sub-proof
             let pv = bw.pres.verifiable_credential[0].get_credential_presentation_proof().unwrap().clone();
             let sj = serde_json::to_value(&pv.sub_proof).unwrap();
@@ -1512,7 +1579,23 @@ fn break_plan(rng: &mut Rng, plan: &mut Plan, eng: &Engine) {
     let held = plan.creds[ci].held;
     let vals = eng.cast.creds[held].values.clone();
     let k = plan.refs.len();
-    match rng.below(7) {
+    match rng.below(9) {
+        7 => {
+            // nothing selected at all: no credential entry (the request still asks for its referents)
+            plan.creds.clear();
+            for r in plan.refs.iter_mut() {
+                if !matches!(r.kind, Kind::SelfAttested(_)) {
+                    r.cred = None;
+                }
+            }
+            plan.refs.retain(|r| matches!(r.kind, Kind::SelfAttested(_)) || true);
+        }
+        8 => {
+            // every credential passed along but none mapped to a referent
+            for r in plan.refs.iter_mut() {
+                r.cred = None;
+            }
+        }
         0 => {
             // predicate that does not hold
             if let Some((n, v)) = vals.iter().find(|(_, v)| v.parse::<i32>().is_ok()) {
@@ -1673,9 +1756,13 @@ pub fn ffi_flows(eng: &mut Engine, rng: &mut Rng, thorough: bool, out: &mut Out)
         json!(["revocation_status_list", serde_json::to_string(&eng.cast.regs[0].lists[1]).unwrap()]),
     ];
     let link_secret: String = eng.cast.holders[0].try_clone().unwrap().try_into().unwrap();
+    // a revocation-capable definition with its private parts (key generation is too slow to repeat through the C ABI on every run)
+    let dr = eng.cast.w.def("R");
+    let rev_material = json!({"schema": dr.schema, "schema_id": dr.sid.0, "cred_def": dr.cd, "cred_def_id": dr.cid.0, "cred_def_private": dr.cdp, "key_correctness_proof": dr.kcp,
+        "issuer_id": dr.issuer.0, "attr_names": dr.schema.attr_names.0});
     let path = format!("/verif/.cache/ffi_flows-{}.json", std::process::id());
     std::fs::write(&path, serde_json::to_string(&json!({"flows": flows, "schema_native": schema_native, "roundtrips": roundtrips,
-        "link_secret": link_secret})).unwrap()).unwrap();
+        "link_secret": link_secret, "rev_material": rev_material})).unwrap()).unwrap();
     out.count_n("c17:flows", flows.len() as u64);
     println!("FFI_FLOWS_FILE {path}");
     vec![]
